@@ -89,4 +89,15 @@ func init() {
 		Rule:        "one case = one generated (federation, operation with up to 4 @defer on inline fragments and spreads: nested, sibling, in lists, labels, if literal/variable) executed through the real engine under a seeded completion order of the deferred fetch groups; frames (bytes between flushes) are checked by a stream automaton (valid JSON per frame, initial frame first, ids announced before use, completed exactly once, hasNext false on the last frame only, Complete() once, termination) and the incremental payloads merged at path+subPath must reconstruct the data of the same operation without @defer on the same engine and of the reference monolith; 25% of runs add faults on fetches and assert stream shape, termination and that delivered data is a nulling of the fault-free data. Non-trivial = at least two frames. Distinct = distinct hash of the context-switch sequence.",
 		Assumptions: append([]string{"@defer(if: $var) is generated with the variable true; the twin replaces it by @include(if: $var)"}, fedAssume...), Components: fedComponents,
 	}
+
+	props["C16"] = &propCfg{
+		World: "fed16", QuickRuns: 12000, ThorRuns: 600000, QuickSecs: 200, ThorSecs: 1800, Level: "exploration", MinNontriv: 50,
+		Rule:        "one case = a history of 3-9 requests from 1-2 clients (think times of 0-40 simulated seconds) over a pool of operations on one engine with a simulated cache node attached (in-memory map with TTL on the fake clock, recording every GetMany/SetMany); every subgraph response carries a generated Cache-Control header (public/private/no-store/no-cache/max-age/s-maxage, upper case, duplicates, junk tokens, split lines, absent); faults: GetMany error, eviction of a random subset before a lookup, SetMany error with partial store, answers carrying errors next to data. Oracle: every response's data equals the reference, no request fails, everything stored comes from a storable response (own header reader) with TTL <= its lifetime. Non-trivial = a full cache hit or more than one store happened. Distinct = distinct hash of the context-switch sequence.",
+		Assumptions: append([]string{"SetMany calls are attributed to the last subgraph response completed by the storing task (subgraph request de-duplication off)", "the cache node, not the engine, enforces TTL expiry (the repository ships only the caching.Cache interface)"}, fedAssume...), Components: fedComponents,
+	}
+	props["C14"] = &propCfg{
+		World: "fed14", QuickRuns: 20000, ThorRuns: 1000000, QuickSecs: 200, ThorSecs: 1800, Level: "exploration", MinNontriv: 50,
+		Rule:        "one case = one generated (federation, protected coordinate set P (35% of coordinates, never a @requires input), decision function P -> allow/deny(reason) from the tape, mode: post-fetch Authorizer / pre-fetch BatchAuthorizer / both, operation: query, mutation or deferred query); faults: authorizer returns an error, batch authorizer returns the wrong number of decisions. Oracle: sentinel values of denied coordinates never occur in any byte sent to the client (initial and incremental frames); data equals the reference executed with denied coordinates failing (exact null propagation) with an error reported; at the network: a mutation with a denied root field is never sent, with pre-fetch authorization a request whose root fields are all denied is never sent, an authorizer error sends nothing. Non-trivial = the operation text selects a denied field name. Distinct = distinct hash of the context-switch sequence.",
+		Assumptions: append([]string{"subscription updates are not exercised (the FED world has no subscription source)", "exact position check is skipped for deferred operations (sentinel scan and request rule still apply)"}, fedAssume...), Components: fedComponents,
+	}
 }
